@@ -612,3 +612,65 @@ def uuid_bytes(x):
     if isinstance(x, SUUIDStr):
         return x.b.items
     return list(_uuid.UUID(x).bytes)
+
+
+# --------------------------------------------------------------------------
+# format(n, 'x') and hashlib.sha1 (E-sha1)
+# --------------------------------------------------------------------------
+
+def sym_format(x, spec=''):
+    """format() with an exact model of format(int, 'x') on symbolic ints:
+    forks on the sign and on the number of hex digits."""
+    if not isinstance(x, SInt):
+        return builtins.format(x, spec)
+    if spec != 'x':
+        return builtins.format(concretize(x), spec)
+    from . import sstr
+    W = x.e.size()
+    neg = builtins.bool(x < 0)
+    mag = -x if neg else x
+    if not isinstance(mag, SInt):
+        return builtins.format(-mag if neg else mag, 'x')
+    maxd = max(1, (max(abs(x.lo), abs(x.hi)).bit_length() + 3) // 4)
+    k = 1
+    while k < maxd and not builtins.bool(mag < (1 << (4 * k))):
+        k += 1
+    cps = []
+    for i in reversed(range(k)):
+        nib = z3.Extract(3, 0, z3.LShR(mag.e, 4 * i))
+        n32 = z3.ZeroExt(28, nib)
+        cps.append(z3.If(z3.ULT(nib, 10), n32 + 48, n32 + 87))
+    return sstr.SStr(([45] if neg else []) + cps).fold()
+
+
+class Sha1Model:
+    """hashlib.sha1 as a recorder: digest() is 20 fresh symbolic bytes (an
+    arbitrary digest), the hashed message is kept for the oracle."""
+    instances = []
+
+    def __init__(self, data=b''):
+        self.parts = []
+        self.digest_items = None
+        Ctx.cur.env.setdefault('sha1', []).append(self)
+        if data:
+            self.update(data)
+
+    def update(self, data):
+        if isinstance(data, builtins.str) or getattr(data, 'cps', None) \
+                is not None:
+            raise TypeError('Strings must be encoded before hashing')
+        self.parts.append(list(bytes_items(data)))
+
+    def message(self):
+        return [b for p in self.parts for b in p]
+
+    def digest(self):
+        if self.digest_items is None:
+            ctx = Ctx.cur
+            name = ctx.fresh('sha1digest')
+            d = ctx.bytes(name, 20)
+            self.digest_items = d
+        return self.digest_items
+
+    def hexdigest(self):
+        raise Unsupported('hexdigest on symbolic digest')
